@@ -2,8 +2,11 @@
    Deserialization/Filter.hpp and NestingLimit.hpp.  Definitions only.
 
    The document is built as a tree (jv); the partial document left behind by an error is
-   modelled too.  Memory is assumed available (NoMemory is never produced here); the heap
-   level model covers allocation failures. *)
+   modelled too.  Memory is assumed available, except for the one limit that does not depend
+   on the allocator: a string or key longer than StringNode::maxLength (65535 bytes with the
+   default 2-byte length field) cannot be stored; the StringBuilder becomes invalid, the rest
+   of the string is still read, and NoMemory is returned at its end.  The heap level model
+   covers the other allocation failures. *)
 From Coq Require Import ZArith NArith Bool List.
 From Coq Require Import Floats.SpecFloat.
 From AJ Require Import Model.Base Model.FloatModel Model.Value Model.Utf Model.NumParse.
@@ -170,9 +173,21 @@ Fixpoint quoted_loop (cf : cfg) (fuel : nat) (stop : N) (cp : codepoint) (acc : 
       else quoted_loop cf fuel' stop cp (acc ++ [c]) s
   end.
 
+(* StringBuilder: the capacity doubles 31, 63, ..., 65535; the next growth exceeds
+   StringNode::maxLength and fails; the characters that follow are dropped but the loop keeps
+   reading up to the end of the string; only then is the builder found invalid (an
+   IncompleteInput / InvalidInput met meanwhile takes precedence). *)
+Definition max_json_string : N := 65535.
+Definition too_long (acc : bytes) : bool := max_json_string <? N.of_nat (length acc).
+Definition cap_string (r : code * bytes * ps) : code * bytes * ps :=
+  match r with
+  | (Ok, acc, s) => if too_long acc then (NoMemory, [], s) else (Ok, acc, s)
+  | r => r
+  end.
+
 Definition parse_quoted_string (cf : cfg) (fuel : nat) (s : ps) : code * bytes * ps :=
   let '(stop, s) := current s in
-  quoted_loop cf fuel stop cp_init [] (move s).
+  cap_string (quoted_loop cf fuel stop cp_init [] (move s)).
 
 Fixpoint non_quoted_loop (fuel : nat) (acc : bytes) (c : N) (s : ps) : code * bytes * ps :=
   match fuel with
@@ -187,7 +202,7 @@ Fixpoint non_quoted_loop (fuel : nat) (acc : bytes) (c : N) (s : ps) : code * by
 
 Definition parse_non_quoted_string (fuel : nat) (s : ps) : code * bytes * ps :=
   let '(c, s) := current s in
-  if can_be_in_non_quoted_string c then non_quoted_loop fuel [] c s
+  if can_be_in_non_quoted_string c then cap_string (non_quoted_loop fuel [] c s)
   else (InvalidInput, [], s).
 
 Definition parse_key (cf : cfg) (fuel : nat) (s : ps) : code * bytes * ps :=
